@@ -101,18 +101,30 @@ func VerifC12Heads() {
 		vstub.Fail("C12 store did not subscribe to its topic")
 		return
 	}
-	topic.MsgCh <- &iface.EventPubSubMessage{Content: payload}
-	vstub.WaitIdle()
-	vstub.Cover("malformed-handled")
-	vstub.Assert(b.OpLog().Len() == 0, "C12 malformed heads never enter the log")
-
-	// a valid message sent afterwards is still handled
 	valid := remoteEntry(b, env, env.Identity, []byte("ok"))
 	if valid == nil {
 		return
 	}
 	good, _ := b.messageMarshaler.Marshal(&iface.MessageExchangeHeads{Address: b.id, Heads: []*entry.Entry{valid.(*entry.Entry)}})
-	topic.MsgCh <- &iface.EventPubSubMessage{Content: good}
+	// pacing: the valid message arrives after the malformed one was handled, or
+	// in the same burst right behind it, or right before it (both waiting in the
+	// topic's buffer when the listener wakes up)
+	switch vstub.NdChoice("pacing", 3) {
+	case 0:
+		topic.MsgCh <- &iface.EventPubSubMessage{Content: payload}
+		vstub.WaitIdle()
+		vstub.Cover("malformed-handled")
+		vstub.Assert(b.OpLog().Len() == 0, "C12 malformed heads never enter the log")
+		topic.MsgCh <- &iface.EventPubSubMessage{Content: good}
+	case 1:
+		topic.MsgCh <- &iface.EventPubSubMessage{Content: payload}
+		topic.MsgCh <- &iface.EventPubSubMessage{Content: good}
+		vstub.Cover("burst")
+	case 2:
+		topic.MsgCh <- &iface.EventPubSubMessage{Content: good}
+		topic.MsgCh <- &iface.EventPubSubMessage{Content: payload}
+		vstub.Cover("burst")
+	}
 	vstub.WaitIdle()
 	vstub.Cover("valid-sent")
 	vstub.Assert(b.OpLog().Len() == 1, "C12 a valid message after a malformed one is still handled")
